@@ -288,3 +288,179 @@ Proof.
       destruct (get rid (reqs s1)) as [q'|] eqn:Eg; [|discriminate]. apply Hold. unfold has. rewrite (Sv1 rid q' Eg). reflexivity. }
   destruct H2 as (_ & _ & Pot2). unfold pot in Pot1. unfold pot2 in Pot2. rewrite W0 in Pot1. rewrite V0 in Pot2. fold h. lia.
 Qed.
+
+Lemma end_block_cons c s dt id x' :
+  get id (ctxs (end_block c s dt)) = Some x' -> exists x, get id (ctxs s) = Some x /\ x_cons x' = x_cons x.
+Proof.
+  unfold end_block. cbv zeta. cbn [ctxs with_iidx with_time with_height].
+  set (P := fun t : state => forall id x', get id (ctxs t) = Some x' -> exists x, get id (ctxs s) = Some x /\ x_cons x' = x_cons x).
+  assert (H1 : P (fold_left (expired_batch_handler c) (due (height s) (expq s)) s)).
+  { apply (fold_left_inv P); [|intros i x Hg; exists x; split; [exact Hg|reflexivity]].
+    intros t i Ht id0 x0 Hg. destruct (expired_handler_cons c t i id0 x0 Hg) as (x & G & E). destruct (Ht id0 x G) as (y & Gy & Ey). exists y. split; [exact Gy|congruence]. }
+  set (s1 := fold_left (expired_batch_handler c) _ s) in *.
+  assert (H2 : P (fold_left new_batch_handler (due (height s1) (newq s1)) s1)).
+  { apply (fold_left_inv P); [|exact H1].
+    intros t i Ht id0 x0 Hg. destruct (new_handler_cons t i id0 x0 Hg) as (x & G & E). destruct (Ht id0 x G) as (y & Gy & Ey). exists y. split; [exact Gy|congruence]. }
+  intros Hg. exact (H2 id x' Hg).
+Qed.
+
+Lemma sumz_filter {A} (f : A -> Z) (p : A -> bool) (l : list A) : sumz f (filter p l) = sumz (fun e => if p e then f e else 0) l.
+Proof. unfold sumz. induction l as [|e l IH]; simpl; [reflexivity|]. destruct (p e); simpl; rewrite IH; reflexivity. Qed.
+
+Lemma sumz_msum {K V} (f : K * V -> Z) (m : list (K * V)) : sumz f m = msum f m.
+Proof. reflexivity. Qed.
+
+(** ** C07, clause 4 on the model's own observation of a step *)
+Lemma filter_none {A} (p : A -> bool) (l : list A) : (forall e, In e l -> p e = false) -> filter p l = [].
+Proof. induction l as [|e l IH]; simpl; intros H; [reflexivity|]. rewrite (H e (or_introl eq_refl)). apply IH. intros; apply H; right; assumption. Qed.
+
+Lemma call_led c s txh svc provs cons inok capd capa timeout rep freq total s' :
+  call c s txh svc provs cons inok capd capa timeout rep freq total = Okk s' -> led s' = led s /\ reqs s' = reqs s.
+Proof.
+  unfold call. intros H. destruct (negb _); [discriminate|].
+  destruct (create_context _ _ _ _ _ _ _ _ _ _ _ _ _ _ _ _) as [[s1 id]|] eqn:E; [|discriminate]. inversion H; subst.
+  destruct (create_context_shape _ _ _ _ _ _ _ _ _ _ _ _ _ _ _ _ _ _ E) as (_ & R & _ & L & _). split; assumption.
+Qed.
+
+Lemma c07_clause4_obs univ c s st pc pn pb :
+  c_msvc c < 0 -> GInv s -> LInv false s -> (forall rid, has rid (reqs s) = true -> rid_h rid < height s) -> good_step st ->
+  BatchInv (apply c s st) ->
+  (forall a d, (exists d', In (a, d') univ) -> In d (denoms c) -> In (a, d) univ) ->
+  holds_C07 c (obs_of univ pc pn pb s) st (obs_step univ c s st) <> 4.
+Proof.
+  intros Hm HG Hl Hold Hgood Hb' Hprod E. pose proof HG as (Hq & Hb & Hd & Hp & He).
+  apply first_fail_in in E; [|lia]. unfold holds_C07 in E; cbv zeta in E.
+  do 4 (split_seg E; [not_here E|]). split_seg E; [|not_here E].
+  destruct (is_endblock st || is_call st) eqn:Ek; [|contradiction E].
+  apply in_flat_map in E. destruct E as (a & Hacts & E). apply in_map_iff in E. destruct E as (d & E & Hd0). injection E as E.
+  unfold actors_of in Hacts. apply filter_In in Hacts. destruct Hacts as (Hacc & Hge). apply Z.leb_le in Hge.
+  apply nodup_In, in_map_iff in Hacc. destruct Hacc as ([[a0 d'] v] & Ea0 & Hin0). cbn [fst] in Ea0. subst a0.
+  unfold obs_step in Hin0. cbn [obs_of o_bals] in Hin0. apply in_map_iff in Hin0. destruct Hin0 as ([a1 d1] & E1 & Hin1). injection E1 as -> -> _.
+  assert (Hu : In (a, d) univ) by (apply Hprod; [exists d'; exact Hin1|exact Hd0]).
+  assert (Ha : a <> DEP /\ a <> REQ /\ a <> TAX) by (unfold DEP, REQ, TAX; lia).
+  unfold obs_step in E. rewrite !obal_obs_of in E by exact Hu.
+  set (s' := apply c s st) in *.
+  unfold expired_in, created_in in E. cbn [obs_of o_reqs o_ctxs] in E.
+  rewrite !sumz_filter, !sumz_map in E. cbn [fst snd] in E.
+  destruct st as [txh m|dt| | | | | | |]; try discriminate Ek.
+  - (* a call: nothing is created or refunded, no balance moves *)
+    destruct m; try discriminate Ek.
+    assert (Hs : led s' = led s /\ reqs s' = reqs s).
+    { subst s'. unfold apply. cbn [exec_step]. rewrite (exec_msg_plain_eq _ _ _ _ Hm). cbn [exec_msg_plain].
+      destruct (call c s txh svc provs cons inok capd capa timeout rep freq total) as [s1| |] eqn:Ec; try (split; reflexivity).
+      exact (call_led _ _ _ _ _ _ _ _ _ _ _ _ _ _ Ec). }
+    destruct Hs as (Ls & Rs). rewrite Ls, Rs in E.
+    rewrite (sumz_ext _ (fun _ => 0)) in E.
+    2: { intros [rid q] Hin. cbn [fst snd]. rewrite (get_map_val req_tuple), (In_get_NoDup rid q (reqs s) (b_keys _ Hb) Hin). cbn [option_map req_tuple r_active].
+         destruct (q_active q); reflexivity. }
+    rewrite (sumz_ext (fun e : reqid * request => if negb (has (fst e) (map (fun e0 : reqid * request => (fst e0, req_tuple (snd e0))) (reqs s))) then _ else 0) (fun _ => 0)) in E.
+    2: { intros [rid q] Hin. cbn [fst snd]. rewrite (has_map_val req_tuple). unfold has. rewrite (In_get_NoDup rid q (reqs s) (b_keys _ Hb) Hin). reflexivity. }
+    assert (Z0 : forall (A : Type) (l : list A), sumz (fun _ : A => 0) l = 0) by (intros A l; unfold sumz; induction l; simpl; [reflexivity|assumption]).
+    rewrite !Z0 in E. replace (bal (led s) a d - bal (led s) a d) with 0 in E by lia. discriminate E.
+  - (* the end blocker *)
+    simpl in Hgood. assert (Es' : s' = end_block c s dt).
+    { subst s'. rewrite apply_endblock. destruct (0 <=? dt) eqn:Ed; [reflexivity|apply Z.leb_gt in Ed; lia]. }
+    destruct (end_block_reqs c s dt Hq Hb Hl Hold) as (R1 & R2 & R3 & _). cbv zeta in R1, R2, R3. rewrite <- Es' in R1, R2, R3.
+    pose proof (end_block_bal c s dt a d HG Hl Hold Ha) as Bal. rewrite <- Es' in Bal.
+    assert (Sx : sumz (fun e : reqid * request =>
+               if r_active (req_tuple (snd e)) &&
+                  match get (fst e) (map (fun e0 : reqid * request => (fst e0, req_tuple (snd e0))) (reqs s')) with
+                  | Some q0 => negb (r_active q0) && (r_resp q0 =? 0) | None => true end
+               then if (req_consumer (obs_of univ pc pn pb s) (fst e) =? a) && (r_fd (req_tuple (snd e)) =? d) then r_fee (req_tuple (snd e)) else 0
+               else 0) (reqs s) = msum (W (height s) a d (cons_of s)) (reqs s)).
+    { apply sumz_ext. intros [rid q] Hin. cbn [fst snd]. pose proof (In_get_NoDup rid q (reqs s) (b_keys _ Hb) Hin) as Hg.
+      unfold W. cbn [fst snd req_tuple r_active r_fd r_fee].
+      assert (Ec : req_consumer (obs_of univ pc pn pb s) rid = cons_of s rid).
+      { unfold req_consumer, cons_of. cbn [obs_of o_ctxs]. rewrite (get_map_val ctx_tuple). change (Check.rid_ctx rid) with (rid_ctx rid).
+        destruct (get (rid_ctx rid) (ctxs s)); reflexivity. }
+      rewrite Ec, (get_map_val req_tuple). specialize (R1 rid q Hg).
+      destruct (q_active q) eqn:Ea; [|reflexivity]. cbn [andb].
+      destruct (get rid (reqs s')) as [q'|] eqn:Eg'; cbn [option_map].
+      - subst q'. cbn [req_tuple r_active]. rewrite Ea. cbn [negb andb].
+        pose proof (R3 rid q Eg' Ea) as Hlt. replace (q_exp q =? height s) with false by (symmetry; apply Z.eqb_neq; lia). reflexivity.
+      - destruct R1 as [R1|R1]; [congruence|]. rewrite R1, Z.eqb_refl. reflexivity. }
+    assert (Sn : sumz (fun e : reqid * request =>
+               if negb (has (fst e) (map (fun e0 : reqid * request => (fst e0, req_tuple (snd e0))) (reqs s)))
+               then if (req_consumer (obs_of univ (res_code (exec_step c s (EndBlock dt))) (step_newctx s (EndBlock dt) (exec_step c s (EndBlock dt)))
+                                        (skipn (length (cblog s)) (cblog s')) s') (fst e) =? a) && (r_fd (req_tuple (snd e)) =? d)
+                    then r_fee (req_tuple (snd e)) else 0
+               else 0) (reqs s') = msum (V (height s) a d (cons_of s)) (reqs s')).
+    { apply sumz_ext. intros [rid q'] Hin. cbn [fst snd]. pose proof (In_get_NoDup rid q' (reqs s') (b_keys _ Hb') Hin) as Hg'.
+      unfold V. cbn [fst snd req_tuple r_fd r_fee]. rewrite (has_map_val req_tuple). unfold has.
+      destruct (get rid (reqs s)) as [q|] eqn:Eg; cbn [negb].
+      - assert (Hlt : rid_h rid < height s) by (apply Hold; unfold has; rewrite Eg; reflexivity).
+        replace (rid_h rid =? height s) with false by (symmetry; apply Z.eqb_neq; lia). reflexivity.
+      - destruct (R2 rid q' Hg' Eg) as ((Nh & Na & _) & _). rewrite Nh, Z.eqb_refl. cbn [andb].
+        assert (Ec : req_consumer (obs_of univ (res_code (exec_step c s (EndBlock dt))) (step_newctx s (EndBlock dt) (exec_step c s (EndBlock dt)))
+                                    (skipn (length (cblog s)) (cblog s')) s') rid = cons_of s rid).
+        { unfold req_consumer, cons_of. cbn [obs_of o_ctxs]. rewrite (get_map_val ctx_tuple). change (Check.rid_ctx rid) with (rid_ctx rid).
+          destruct (b_act _ Hb' rid q' Hg' Na) as (x' & Hx' & _). rewrite Hx'. cbn [option_map ctx_tuple t_cons].
+          rewrite Es' in Hx'. destruct (end_block_cons c s dt _ x' Hx') as (x & Hx & Ecx). rewrite Hx. exact Ecx. }
+        rewrite Ec. reflexivity. }
+    rewrite Sx, Sn, Bal in E. rewrite (proj2 (Z.eqb_eq _ _)) in E by lia. discriminate E.
+Qed.
+
+Lemma reach_J1 univ c : c_msvc c < 0 -> forall steps s seen,
+  fresh_history c s steps -> Forall good_step steps -> J1 s seen -> J1 (run c s steps) (model_seen univ c s seen steps).
+Proof.
+  intros Hm. induction steps as [|st r IH]; intros s seen Hf Hg HJ; [exact HJ|].
+  destruct Hf as (F1 & F2). inversion Hg as [|? ? G1 G2]; subst. cbn [run model_seen].
+  apply IH; [exact F2|exact G2|]. exact (proj2 (J1_step univ c s st seen Hm F1 G1 HJ)).
+Qed.
+
+Theorem model_passes_C07_clause_4_lemma :
+  forall c steps h0 t0 l0 univ,
+    c_msvc c < 0 -> clean l0 -> NoDup (create_txhs steps) -> Forall good_step steps ->
+    (forall a d, (exists d', In (a, d') univ) -> In d (denoms c) -> In (a, d) univ) ->
+    forall pre st post, steps = pre ++ st :: post ->
+    forall pc pn pb,
+      let s := run c (init h0 t0 l0) pre in
+      holds_C07 c (obs_of univ pc pn pb s) st (obs_step univ c s st) <> 4.
+Proof.
+  intros c steps h0 t0 l0 univ Hm Hcl Hnd Hgood Hprod pre st post E pc pn pb s.
+  assert (Hnd1 : NoDup (create_txhs (pre ++ [st]))).
+  { rewrite E in Hnd. replace (pre ++ st :: post) with ((pre ++ [st]) ++ post) in Hnd by (rewrite <- app_assoc; reflexivity).
+    rewrite create_txhs_app in Hnd. exact (NoDup_app_l _ _ Hnd). }
+  assert (Hnd0 : NoDup (create_txhs pre)) by (rewrite create_txhs_app in Hnd1; exact (NoDup_app_l _ _ Hnd1)).
+  assert (Hg0 : Forall good_step pre /\ good_step st).
+  { rewrite E in Hgood. apply Forall_app in Hgood. destruct Hgood as (A & B). inversion B; subst. split; assumption. }
+  pose proof (reach_G c pre h0 t0 l0 Hcl Hnd0) as HG. fold s in HG.
+  pose proof (reach_J1 univ c Hm pre (init h0 t0 l0) [] (fresh_history_from_distinct_hashes_lemma c pre h0 t0 l0 Hnd0) (proj1 Hg0)) as HJ.
+  assert (J0 : J1 (init h0 t0 l0) []).
+  { split; [split; [apply SInv_init|apply LInv_init]|]. split; [intros rid H; discriminate H|intros rid []]. }
+  destruct (HJ J0) as ((_ & Hl) & Hold & _). fold s in Hl, Hold.
+  pose proof (reach_S c (pre ++ [st]) h0 t0 l0 Hnd1) as (_ & Hb'). rewrite run_snoc in Hb'. fold s in Hb'.
+  apply c07_clause4_obs; try assumption. exact (proj2 Hg0).
+Qed.
+
+Definition ok7f (k : Z) : Prop := k <> 1 /\ k <> 2 /\ k <> 3 /\ k <> 4 /\ k <> 5.
+
+Theorem model_passes_clauses_C07_4_lemma :
+  forall c steps h0 t0 l0 univ,
+    c_msvc c < 0 -> 0 <= c_tax c -> clean l0 -> NoDup (create_txhs steps) -> Forall good_step steps ->
+    In (DEP, BASE) univ -> (forall d, In d (denoms c) -> In (REQ, d) univ) ->
+    (forall pre st post, steps = pre ++ st :: post -> forall rid q, get rid (reqs (run c (init h0 t0 l0) pre)) = Some q ->
+       In (TAX, q_fd q) univ /\ In (REQ, q_fd q) univ) ->
+    (forall a d, (exists d', In (a, d') univ) -> In d (denoms c) -> In (a, d) univ) ->
+    ledger_of (obs_of univ 0 None [] (init h0 t0 l0)) = l0 ->
+    forall corr p k, check_case_C07 (model_case univ c h0 t0 l0 steps) = (corr, p, k) ->
+      corr = -1 /\ k <> 1 /\ k <> 2 /\ k <> 3 /\ k <> 4 /\ k <> 5.
+Proof.
+  intros c steps h0 t0 l0 univ Hm Htax Hcl Hnd Hgood Hu1 Hu2 Hu5 Hprod Hl corr p k Ek.
+  destruct (model_corresponds_to_itself_lemma c steps h0 t0 l0 univ Hnd Hl) as (C7 & _). cbv zeta in C7.
+  split; [exact (C7 corr p k Ek)|].
+  pose proof (model_step_ok c steps h0 t0 l0 univ Hm Htax Hcl Hnd Hgood Hu1 Hu2 Hu5) as H.
+  assert (H4 : forall pre st post, steps = pre ++ st :: post ->
+            step_okq ok7f (fun _ => True) univ c (run c (init h0 t0 l0) pre) (model_seen univ c (init h0 t0 l0) [] pre) st).
+  { intros pre st post E pc pn pb fired tr sc. destruct (H pre st post E pc pn pb fired tr sc) as ((K1 & K2 & K3 & K5) & _).
+    split; [|exact I]. split; [exact K1|]. split; [exact K2|]. split; [exact K3|]. split; [|exact K5].
+    exact (model_passes_C07_clause_4_lemma c steps h0 t0 l0 univ Hm Hcl Hnd Hgood Hprod pre st post E pc pn pb). }
+  pose proof (check_from_clauses_q ok7f (fun _ => True) univ c steps (init h0 t0 l0) [] H4 0 None [] [] [] [] 1
+                (if corr_state (init h0 t0 l0) (obs_of univ 0 None [] (init h0 t0 l0)) then -1 else 0) (-1) 0 (-1) 0) as G.
+  assert (E : check_all (model_case univ c h0 t0 l0 steps) = check_from c (init h0 t0 l0) (obs_of univ 0 None [] (init h0 t0 l0)) [] [] [] [] (model_trace univ c (init h0 t0 l0) steps) 1
+                (if corr_state (init h0 t0 l0) (obs_of univ 0 None [] (init h0 t0 l0)) then -1 else 0) (-1) 0 (-1) 0).
+  { unfold check_all, model_case. rewrite Hl. reflexivity. }
+  unfold check_case_C07 in Ek. rewrite E in Ek.
+  destruct (check_from _ _ _ _ _ _ _ _ _ _ _ _ _ _) as [[[[r1 r2] r3] r4] r5]. inversion Ek; subst.
+  destruct G as ([->|G7] & _); [repeat split; discriminate|exact G7].
+Qed.
